@@ -1,1 +1,433 @@
-/- C01: property theorems (not yet built). -/
+/- C01 — Evaluation agrees with the Jsonnet language semantics (partial).
+   Property theorems about argument binding (`parse_function_call`, the mechanism that makes
+   "whether arguments are passed positionally or by name" irrelevant) and about the definitional
+   interpreter `Eval` that the correspondence run compares the real evaluator with. -/
+import JrsVerif.Proofs.Bind
+import JrsVerif.Model.Eval
+
+namespace JrsVerif.Bind
+
+theorem named_wf_iff (ps : List Param) (npos : Nat) (named : List String)
+    (passed : List (String × Src)) :
+    bindNamed ps (bindPos ps npos 0) named 0 = .ok passed ↔
+      (NamedWF ps npos named ∧ passed = bindPos ps npos 0 ++ namedEnv named 0) := by
+  rw [bindNamed_ok_iff]
+  have key : ∀ n, has (bindPos ps npos 0) n = false ↔ n ∉ (names ps).take npos := by
+    intro n
+    rw [← bindPos_names ps npos 0, ← has_iff]
+    cases has (bindPos ps npos 0) n <;> simp
+  constructor
+  · rintro ⟨a, b, c, d⟩
+    exact ⟨⟨c, a, fun n hn => (key n).mp (b n hn)⟩, d⟩
+  · rintro ⟨⟨c, a, b⟩, d⟩
+    exact ⟨a, fun n hn => (key n).mpr (b n hn), c, d⟩
+
+/-- C01/C04: the `unreachable!()` in `parse_function_call` is unreachable — whenever the filled
+    counters do not add up to the number of parameters, the search finds an unbound parameter. -/
+theorem parseCall_never_unreachable (ps : List Param) (hnd : (names ps).Nodup) (npos : Nat)
+    (named : List String) : parseCall ps npos named ≠ .unreachable := by
+  simp only [parseCall]
+  split
+  · simp
+  · rename_i hle
+    have hle : npos ≤ ps.length := by omega
+    cases hb : bindNamed ps (bindPos ps npos 0) named 0 with
+    | error e => simp
+    | ok passed =>
+      simp only
+      obtain ⟨w, hpassed⟩ := (named_wf_iff ps npos named passed).mp hb
+      split
+      · split
+        · rename_i hcount
+          cases hf : firstUnbound named (ps.drop npos) with
+          | some n => simp
+          | none =>
+            exfalso
+            have hall := (firstUnbound_none_iff named _).mp hf
+            have hc : ∀ n ∈ (names ps).drop npos, n ∈ named := by
+              intro n hn
+              simp only [names, ← List.map_drop, List.mem_map] at hn
+              obtain ⟨p, hp, rfl⟩ := hn
+              exact hall p hp
+            have hlen := named_length_of_covers w hnd hle hc
+            -- every parameter is passed, so no default is added
+            have hd : bindDefaults passed ps = [] := by
+              have : ∀ (qs : List Param), (∀ q ∈ qs, has passed q.1 = true) → bindDefaults passed qs = [] := by
+                intro qs
+                induction qs with
+                | nil => intro _; rfl
+                | cons q r ih =>
+                  intro h
+                  have hq := h q (by simp)
+                  simp only [bindDefaults, hq, Bool.not_true, Bool.and_false, Bool.false_eq_true, ↓reduceIte]
+                  exact ih (fun x hx => h x (List.mem_cons_of_mem _ hx))
+              apply this
+              intro q hq
+              rw [has_iff, hpassed, List.map_append, bindPos_names, namedEnv_names]
+              have hq' : q.1 ∈ names ps := List.mem_map_of_mem (f := (·.1)) hq
+              rw [← List.take_append_drop npos (names ps)] at hq'
+              rcases List.mem_append.mp hq' with h | h
+              · exact List.mem_append_left _ h
+              · exact List.mem_append_right _ (hc _ h)
+            rw [hd] at hcount
+            simp at hcount
+            omega
+        · simp
+      · simp
+
+/-- the language's binding rule, for a call that `parse_function_call` accepts: every parameter
+    gets exactly the source the rule prescribes (positional prefix, else the named argument of that
+    name, else its default), and every parameter gets one. -/
+theorem parseCall_assignment (ps : List Param) (hnd : (names ps).Nodup) (npos : Nat)
+    (named : List String) (env : List (String × Src)) (h : parseCall ps npos named = .ok env)
+    (i : Nat) (p : Param) (hp : ps[i]? = some p) :
+    lookup env p.1 = specSrc npos named i p ∧ (specSrc npos named i p).isSome = true := by
+  simp only [parseCall] at h
+  split at h
+  · cases h
+  · rename_i hle
+    have hle : npos ≤ ps.length := by omega
+    cases hb : bindNamed ps (bindPos ps npos 0) named 0 with
+    | error e => rw [hb] at h; cases h
+    | ok passed =>
+      rw [hb] at h
+      simp only at h
+      obtain ⟨w, hpassed⟩ := (named_wf_iff ps npos named passed).mp hb
+      have hmem : p ∈ ps := List.mem_of_getElem? hp
+      -- the lookup in `passed ++ rest`
+      have look : ∀ rest, lookup (passed ++ rest) p.1 =
+          if i < npos then some (.pos i) else
+            match indexOf? named p.1 with
+            | some j => some (.named j)
+            | none => lookup rest p.1 := by
+        intro rest
+        rw [hpassed, List.append_assoc]
+        by_cases hi : i < npos
+        · simp only [hi, ↓reduceIte]
+          have := lookup_bindPos ps hnd npos 0 i p hp hi (namedEnv named 0 ++ rest)
+          simpa using this
+        · simp only [hi, ↓reduceIte]
+          have hnot : has (bindPos ps npos 0) p.1 = false := by
+            have := not_mem_take_of_ge ps hnd npos i p hp (by omega)
+            rw [← bindPos_names ps npos 0, ← has_iff] at this
+            simpa using this
+          rw [lookup_append_of_not_has _ _ _ hnot, lookup_namedEnv]
+          cases indexOf? named p.1 <;> simp
+      have hasPassed : has passed p.1 = (decide (i < npos) || (indexOf? named p.1).isSome) := by
+        rw [indexOf?_isSome]
+        apply Bool.eq_iff_iff.mpr
+        rw [has_iff, hpassed, List.map_append, bindPos_names, namedEnv_names]
+        simp only [List.mem_append, Bool.or_eq_true, decide_eq_true_eq, List.contains_iff_mem]
+        constructor
+        · rintro (h1 | h1)
+          · by_cases hi : i < npos
+            · exact Or.inl hi
+            · exact absurd h1 (not_mem_take_of_ge ps hnd npos i p hp (by omega))
+          · exact Or.inr h1
+        · rintro (h1 | h1)
+          · exact Or.inl (mem_take_names_of_lt ps npos i p hp h1)
+          · exact Or.inr h1
+      split at h
+      · -- defaults branch
+        split at h
+        · split at h <;> cases h
+        · rename_i hcount
+          cases h
+          have hcount : named.length + (bindDefaults passed ps).length + npos = ps.length := by
+            simpa using hcount
+          rw [look, lookup_bindDefaults passed ps p hmem hnd, hasPassed]
+          unfold specSrc
+          by_cases hi : i < npos
+          · simp [hi]
+          · simp only [hi, ↓reduceIte, decide_false, Bool.false_or]
+            cases hidx : indexOf? named p.1 with
+            | some j => simp
+            | none =>
+              simp only [Option.isSome_none, Bool.not_false, Bool.and_true]
+              by_cases hd : p.2 = true
+              · simp [hd]
+              · exfalso
+                -- p is not passed and has no default: then the counters cannot add up
+                have hd' : p.2 = false := by simpa using hd
+                have hnotnamed : p.1 ∉ named := by
+                  have := indexOf?_isSome named p.1
+                  rw [hidx] at this
+                  simpa using this.symm
+                -- defaults ⊆ params beyond npos that are not named and not p
+                let D := (names ps).drop npos
+                have hpD : p.1 ∈ D := mem_drop_names_of_ge ps npos i p hp (by omega)
+                have dn : ((bindDefaults passed ps).map (·.1)).Nodup := by
+                  have : ∀ qs : List Param, (names qs).Nodup → ((bindDefaults passed qs).map (·.1)).Nodup := by
+                    intro qs
+                    induction qs with
+                    | nil => intro _; exact List.nodup_nil
+                    | cons q r ih =>
+                      intro hq
+                      have hc : names (q :: r) = q.1 :: names r := rfl
+                      rw [hc] at hq
+                      have hq' := List.nodup_cons.mp hq
+                      simp only [bindDefaults]
+                      split
+                      · simp only [List.map_cons]
+                        refine List.nodup_cons.mpr ⟨?_, ih hq'.2⟩
+                        intro hm
+                        rw [← has_iff, has_bindDefaults] at hm
+                        obtain ⟨x, hx, hxe⟩ := List.any_eq_true.mp hm
+                        simp only [Bool.and_eq_true, beq_iff_eq] at hxe
+                        exact hq'.1 (hxe.1 ▸ List.mem_map_of_mem (f := (·.1)) hx)
+                      · exact ih hq'.2
+                  exact this ps hnd
+                -- the list named ++ defaults-names is nodup, ⊆ D and misses p.1
+                have sub : ∀ n ∈ named ++ (bindDefaults passed ps).map (·.1), n ∈ D ∧ n ≠ p.1 := by
+                  intro n hn
+                  rcases List.mem_append.mp hn with h1 | h1
+                  · exact ⟨named_subset_drop w h1, fun e => hnotnamed (e ▸ h1)⟩
+                  · rw [← has_iff, has_bindDefaults] at h1
+                    obtain ⟨x, hx, hxe⟩ := List.any_eq_true.mp h1
+                    simp only [Bool.and_eq_true, beq_iff_eq, Bool.not_eq_true'] at hxe
+                    obtain ⟨hx1, hx2, hx3⟩ := hxe
+                    subst hx1
+                    refine ⟨?_, ?_⟩
+                    · have hx' : x.1 ∈ names ps := List.mem_map_of_mem (f := (·.1)) hx
+                      rw [← List.take_append_drop npos (names ps)] at hx'
+                      rcases List.mem_append.mp hx' with h2 | h2
+                      · exfalso
+                        have : has passed x.1 = true := by
+                          rw [has_iff, hpassed, List.map_append, bindPos_names]
+                          exact List.mem_append_left _ h2
+                        rw [this] at hx3; cases hx3
+                      · exact h2
+                    · intro e
+                      -- x has a default, p has none, same name ⇒ same param (nodup) ⇒ contradiction
+                      have : x = p := by
+                        have inj : ∀ (qs : List Param), (names qs).Nodup → ∀ a ∈ qs, ∀ b ∈ qs, a.1 = b.1 → a = b := by
+                          intro qs
+                          induction qs with
+                          | nil => intro _ a ha; cases ha
+                          | cons q r ih =>
+                            intro hq a ha b hb hab
+                            have hc : names (q :: r) = q.1 :: names r := rfl
+                            rw [hc] at hq
+                            have hq' := List.nodup_cons.mp hq
+                            rcases List.mem_cons.mp ha with ea | ha' <;> rcases List.mem_cons.mp hb with eb | hb'
+                            · rw [ea, eb]
+                            · exfalso; exact hq'.1 (by rw [← ea, hab]; exact List.mem_map_of_mem (f := (·.1)) hb')
+                            · exfalso; exact hq'.1 (by rw [← eb, ← hab]; exact List.mem_map_of_mem (f := (·.1)) ha')
+                            · exact ih hq'.2 a ha' b hb' hab
+                        exact inj ps hnd x hx p hmem e
+                      rw [this, hd'] at hx2; cases hx2
+                have ndAll : (named ++ (bindDefaults passed ps).map (·.1)).Nodup := by
+                  refine List.nodup_append.mpr ⟨w.nd, dn, ?_⟩
+                  intro a ha b hb hab
+                  subst hab
+                  rw [← has_iff, has_bindDefaults] at hb
+                  obtain ⟨x, hx, hxe⟩ := List.any_eq_true.mp hb
+                  simp only [Bool.and_eq_true, beq_iff_eq, Bool.not_eq_true'] at hxe
+                  have : has passed x.1 = true := by
+                    rw [has_iff, hpassed, List.map_append, namedEnv_names]
+                    exact List.mem_append_right _ (hxe.1 ▸ ha)
+                  rw [this] at hxe; cases hxe.2.2
+                have sub' : (p.1 :: (named ++ (bindDefaults passed ps).map (·.1))) ⊆ D := by
+                  intro n hn
+                  rcases List.mem_cons.mp hn with e | h1
+                  · rw [e]; exact hpD
+                  · exact (sub n h1).1
+                have nd' : (p.1 :: (named ++ (bindDefaults passed ps).map (·.1))).Nodup :=
+                  List.nodup_cons.mpr ⟨fun hm => (sub _ hm).2 rfl, ndAll⟩
+                have := (List.subperm_of_subset nd' sub').length_le
+                simp [D, names] at this
+                omega
+      · -- every parameter is passed
+        rename_i hfull
+        cases h
+        have hfull : ps.length ≤ named.length + npos := by omega
+        have hcov := named_covers_of_length w hle hfull
+        have := look []
+        rw [List.append_nil] at this
+        rw [this]
+        unfold specSrc
+        by_cases hi : i < npos
+        · simp [hi]
+        · simp only [hi, ↓reduceIte]
+          have hin : p.1 ∈ named := hcov _ (mem_drop_names_of_ge ps npos i p hp (by omega))
+          have := indexOf?_isSome named p.1
+          have hc : named.contains p.1 = true := by simpa using hin
+          rw [hc] at this
+          cases hidx : indexOf? named p.1 with
+          | none => rw [hidx] at this; cases this
+          | some j => simp
+
+
+/-- a call is well-formed by the language rule: not too many positional arguments, every named
+    argument names a parameter not already bound, no name twice, every parameter gets a value -/
+def SpecOk (ps : List Param) (npos : Nat) (named : List String) : Prop :=
+  npos ≤ ps.length ∧ NamedWF ps npos named ∧
+    ∀ i p, ps[i]? = some p → (specSrc npos named i p).isSome = true
+
+/-- `parse_function_call` accepts a call exactly when the language rule does (so it fails with an
+    error exactly on: too many arguments, unknown name, parameter bound twice, unbound parameter) -/
+theorem parseCall_ok_iff (ps : List Param) (hnd : (names ps).Nodup) (npos : Nat) (named : List String) :
+    (∃ env, parseCall ps npos named = .ok env) ↔ SpecOk ps npos named := by
+  constructor
+  · rintro ⟨env, h⟩
+    have hsrc := fun i p hp => (parseCall_assignment ps hnd npos named env h i p hp).2
+    simp only [parseCall] at h
+    split at h
+    · cases h
+    · rename_i hle
+      cases hb : bindNamed ps (bindPos ps npos 0) named 0 with
+      | error e => rw [hb] at h; cases h
+      | ok passed =>
+        exact ⟨by omega, ((named_wf_iff ps npos named passed).mp hb).1, hsrc⟩
+  · rintro ⟨hle, w, hsrc⟩
+    have hb := (named_wf_iff ps npos named _).mpr ⟨w, rfl⟩
+    simp only [parseCall]
+    have : ¬ npos > ps.length := by omega
+    simp only [this, ↓reduceIte, hb]
+    split
+    · have hall : ∀ i p, ps[i]? = some p → npos ≤ i → p.1 ∈ named ∨ p.2 = true := by
+        intro i p hp hi
+        have h1 := hsrc i p hp
+        unfold specSrc at h1
+        have hni : ¬ i < npos := by omega
+        simp only [hni, ↓reduceIte] at h1
+        cases hidx : indexOf? named p.1 with
+        | some j =>
+          left
+          have := indexOf?_isSome named p.1
+          rw [hidx] at this
+          simpa using this.symm
+        | none =>
+          right
+          rw [hidx] at h1
+          cases hd : p.2 with
+          | true => rfl
+          | false => rw [hd] at h1; simp at h1
+      have hc := count_full w hnd hle _ rfl hall
+      simp [hc]
+    · exact ⟨_, rfl⟩
+
+/-- non-vacuity: `function(a, b=…, c)` called as `f(1, c=…)` -/
+example : SpecOk [("a", false), ("b", true), ("c", false)] 1 ["c"]
+    ∧ parseCall [("a", false), ("b", true), ("c", false)] 1 ["c"]
+        = .ok [("a", .pos 0), ("c", .named 0), ("b", .dflt)] := by
+  refine ⟨⟨by decide, ⟨by decide, by decide, by decide⟩, ?_⟩, by decide⟩
+  intro i p hp
+  match i, hp with
+  | 0, hp => cases hp; decide
+  | 1, hp => cases hp; decide
+  | 2, hp => cases hp; decide
+  | (k + 3), hp => simp at hp
+
+/-! ### call style does not matter -/
+
+/-- the value a parameter receives, given the positional values and the (name, value) pairs -/
+def valueOf {V : Type} (pos : List V) (named : List (String × V)) : Src → Option V
+  | .pos i => pos[i]?
+  | .named j => (named[j]?).map (·.2)
+  | .dflt => none
+
+theorem map_fst_zip_sublist {α β : Type} : ∀ (l1 : List α) (l2 : List β),
+    ((l1.zip l2).map (·.1)).Sublist l1
+  | [], _ => by simp
+  | _ :: _, [] => by simp
+  | a :: as, _ :: bs => by
+    simp only [List.zip_cons_cons, List.map_cons]
+    exact (map_fst_zip_sublist as bs).cons₂ a
+
+theorem indexOf?_spec {V : Type} (l : List (String × V)) (hnd : (l.map (·.1)).Nodup) (n : String) (v : V)
+    (hm : (n, v) ∈ l) : ∃ j, indexOf? (l.map (·.1)) n = some j ∧ l[j]? = some (n, v) := by
+  induction l with
+  | nil => cases hm
+  | cons x r ih =>
+    have hnd' : x.1 ∉ r.map (·.1) ∧ (r.map (·.1)).Nodup :=
+      List.nodup_cons.mp (by rw [List.map_cons] at hnd; exact hnd)
+    rcases List.mem_cons.mp hm with e | hm'
+    · subst e
+      exact ⟨0, by simp [indexOf?], rfl⟩
+    · have hne : x.1 ≠ n := by
+        intro e
+        exact hnd'.1 (e ▸ List.mem_map_of_mem (f := (·.1)) hm')
+      obtain ⟨j, h1, h2⟩ := ih hnd'.2 hm'
+      refine ⟨j + 1, ?_, by simpa using h2⟩
+      have : (x.1 == n) = false := by simpa using hne
+      simp [indexOf?, this, h1]
+
+/-- C01 "whether arguments are passed positionally or by name": take a call that passes the
+    values `vs` positionally.  Passing only the first `k` positionally and the rest by name, in
+    ANY order (`named` is any permutation of the (parameter name, value) pairs of the rest), binds
+    every parameter to the same value, and leaves the same parameters to their defaults. -/
+theorem call_style_invariant {V : Type} (ps : List Param) (hnd : (names ps).Nodup) (vs : List V)
+    (hlen : vs.length ≤ ps.length) (k : Nat) (hk : k ≤ vs.length)
+    (named : List (String × V)) (hperm : named.Perm (((names ps).zip vs).drop k))
+    (i : Nat) (p : Param) (hp : ps[i]? = some p) :
+    (specSrc k (named.map (·.1)) i p).bind (valueOf (vs.take k) named)
+      = (specSrc vs.length [] i p).bind (valueOf vs []) ∧
+    ((specSrc k (named.map (·.1)) i p) = some .dflt ↔ (specSrc vs.length [] i p) = some .dflt) ∧
+    ((specSrc k (named.map (·.1)) i p).isSome = (specSrc vs.length [] i p).isSome) := by
+  have hname : (names ps)[i]? = some p.1 := by simp [names, hp]
+  have zipnd : ((((names ps).zip vs).drop k).map (·.1)).Nodup := by
+    have h1 : (((names ps).zip vs).map (·.1)).Nodup := (map_fst_zip_sublist _ _).nodup hnd
+    rw [List.map_drop]
+    exact (List.drop_sublist k _).nodup h1
+  have nnd : (named.map (·.1)).Nodup := (hperm.map (·.1)).nodup_iff.mpr zipnd
+  by_cases hi : i < vs.length
+  · -- parameter receives vs[i] in both calls
+    have hv : ∃ v, vs[i]? = some v := ⟨vs[i], by simp [hi]⟩
+    obtain ⟨v, hv⟩ := hv
+    have rhs : specSrc vs.length [] i p = some (.pos i) := by simp [specSrc, hi]
+    by_cases hik : i < k
+    · have lhs : specSrc k (named.map (·.1)) i p = some (.pos i) := by simp [specSrc, hik]
+      rw [lhs, rhs]
+      refine ⟨?_, by simp, by simp⟩
+      simp [valueOf, List.getElem?_take, hik]
+    · -- passed by name
+      have hz : ((names ps).zip vs)[i]? = some (p.1, v) := by
+        rw [List.getElem?_zip_eq_some]; exact ⟨hname, hv⟩
+      have hmem : (p.1, v) ∈ ((names ps).zip vs).drop k := by
+        apply List.mem_of_getElem? (i := i - k)
+        rw [List.getElem?_drop]
+        have : k + (i - k) = i := by omega
+        rw [this]; exact hz
+      have hmem' : (p.1, v) ∈ named := hperm.mem_iff.mpr hmem
+      obtain ⟨j, hj1, hj2⟩ := indexOf?_spec named nnd p.1 v hmem'
+      have lhs : specSrc k (named.map (·.1)) i p = some (.named j) := by simp [specSrc, hik, hj1]
+      rw [lhs, rhs]
+      refine ⟨?_, by simp, by simp⟩
+      simp [valueOf, hj2, hv]
+  · -- beyond the passed values: default or unbound in both calls
+    have hik : ¬ i < k := by omega
+    have hnot : indexOf? (named.map (·.1)) p.1 = none := by
+      have := indexOf?_isSome (named.map (·.1)) p.1
+      cases hidx : indexOf? (named.map (·.1)) p.1 with
+      | none => rfl
+      | some j =>
+        exfalso
+        rw [hidx] at this
+        have hin : p.1 ∈ named.map (·.1) := by simpa using this.symm
+        have hin' : p.1 ∈ (((names ps).zip vs).drop k).map (·.1) := (hperm.map (·.1)).mem_iff.mp hin
+        obtain ⟨⟨n, v⟩, hm, hn⟩ := List.mem_map.mp hin'
+        have hn : n = p.1 := hn
+        have hm' : (n, v) ∈ (names ps).zip vs := (List.drop_sublist k _).mem hm
+        obtain ⟨m, hmm⟩ := List.getElem?_of_mem hm'
+        rw [List.getElem?_zip_eq_some] at hmm
+        -- names nodup: index m = i, but m < vs.length ≤ i
+        have hm_lt : m < vs.length := by
+          have := hmm.2
+          exact (List.getElem?_eq_some_iff.mp this).1
+        have : m = i := by
+          have h1 := hmm.1
+          have hm1 : m < (names ps).length := (List.getElem?_eq_some_iff.mp h1).1
+          have hi1 : i < (names ps).length := (List.getElem?_eq_some_iff.mp hname).1
+          have e1 : (names ps)[m] = n := (List.getElem?_eq_some_iff.mp h1).2
+          have e2 : (names ps)[i] = n := hn ▸ (List.getElem?_eq_some_iff.mp hname).2
+          exact (List.getElem_inj hnd).mp (e1.trans e2.symm)
+        omega
+    have lhs : specSrc k (named.map (·.1)) i p = (if p.2 then some .dflt else none) := by
+      simp [specSrc, hik, hnot]
+    have rhs : specSrc vs.length [] i p = (if p.2 then some .dflt else none) := by
+      simp [specSrc, hi, indexOf?]
+    rw [lhs, rhs]
+    cases p.2 <;> simp [valueOf]
+
+end JrsVerif.Bind
